@@ -73,7 +73,7 @@ Section QpLive.
   Hypothesis Hkkt_C : in_boxv lb ub xs /\ in_ncone lb ub xs rs.
 
   Hypothesis Hpsi : forall x, pgrad x = (ψ x, g x).
-  Hypothesis Hco : coherent psi_grad_full psi_yhat grad_L P.
+  Hypothesis Hco : coherent psi_grad_full psi_yhat grad_L grad_psi P.
   Hypothesis Hglen : forall x, length x = n -> length (g x) = n.
   Hypothesis Hqub : forall u d, length u = n -> length d = n ->
     ψ (vadd u d) <= ψ u + vdot (g u) d + Lf / 2 * vsqnorm d.
